@@ -89,7 +89,7 @@ BUILTIN_NAMES = {
     "len", "int", "str", "sum", "zip", "enumerate", "reversed", "range", "sorted", "all", "any", "bool",
     "tuple", "list", "dict", "set", "frozenset", "isinstance", "min", "max", "abs", "ord", "chr", "hash",
     "repr", "divmod", "map", "filter", "iter", "next", "type", "super", "print", "getattr", "hasattr",
-    "id", "callable", "issubclass", "round", "pow",
+    "id", "callable", "issubclass", "round", "pow", "format",
 }
 BUILTIN_EXC = set(ops.BUILTIN_EXC_NAMES)
 
